@@ -93,6 +93,14 @@ XMLUCS4Transcoder::transcodeFrom(const  XMLByte* const          srcData
         if (fSwapped)
             nextVal = BitOps::swapBytes(nextVal);
 
+        //
+        //  Values beyond the last Unicode code point, and the surrogate code
+        //  points, are not legal UCS-4 content: reject them rather than
+        //  decode them to unrelated (or unpaired surrogate) characters.
+        //
+        if ((nextVal > 0x10FFFF) || ((nextVal >= 0xD800) && (nextVal <= 0xDFFF)))
+            ThrowXMLwithMemMgr(TranscodingException, XMLExcepts::Trans_BadSrcSeq, getMemoryManager());
+
         // Handle a surrogate pair if needed
         if (nextVal & 0xFFFF0000)
         {
